@@ -14,13 +14,15 @@ def clfOnly : List (Site × List Cls) := [
   (Site.fn_clf_connect, [Cls.OSError, Cls.TypeError, Cls.ValueError, Cls.SystemExit, Cls.RuntimeError, Cls.AssertionError, Cls.clf_pn53x_Chipset_Error, Cls.clf_rcs380_StatusError, Cls.clf_TransmissionError]),
   (Site.fn_clf_sense_several, [Cls.OSError, Cls.ValueError, Cls.AssertionError, Cls.clf_pn53x_Chipset_Error, Cls.clf_rcs380_StatusError, Cls.clf_TransmissionError]),
   (Site.fn_clf_card_connect, [Cls.OSError, Cls.ValueError, Cls.AssertionError, Cls.KeyboardInterrupt, Cls.clf_UnsupportedTargetError, Cls.clf_pn53x_Chipset_Error, Cls.clf_rcs380_StatusError])]
-theorem clfOnly_ok : checkOnly world table prog clfOnly = true := by decide +kernel
 def clfCan : List (Site × Cls) := [
   (Site.fn_clf_connect, Cls.SystemExit),
   (Site.fn_clf_llcp_connect, Cls.KeyboardInterrupt),
   (Site.fn_clf_sense, Cls.clf_UnsupportedTargetError),
   (Site.fn_clf_listen, Cls.clf_TimeoutError)]
-theorem clfCan_ok : checkCan world table prog clfCan = true := by decide +kernel
+/-- both lists, checked with one evaluation of the summary table -/
+theorem clfAll_ok : checkAll world table prog clfOnly [] clfCan = true := by decide +kernel
+theorem clfOnly_ok : checkOnly world table prog clfOnly = true := (checkAll_split clfAll_ok).1
+theorem clfCan_ok : checkCan world table prog clfCan = true := (checkAll_split clfAll_ok).2.2
 
 
 /-- What can leave `connect()`: `IOError` (documented: no device), `TypeError` / `ValueError` (documented:
